@@ -71,13 +71,59 @@ theorem processPacket_none (f : Flow) (p : Pkt) (h : p.payload = none) : f.proce
   simp only [h]
   split <;> rfl
 
-theorem processPacket_some (f : Flow) (p : Pkt) (d : Bytes) (hi : (f.pre p).ignoreData = false) (h : p.payload = some d) :
+/-- is the segment out of order for a flow whose tracker expects `cur` -/
+def isOoo (p : Pkt) (d : Bytes) (cur : Nat) : Bool :=
+  decide (seqCompare (wrap32 (p.dataSeq + d.length)) cur < 0 ∨ seqCompare p.dataSeq cur > 0)
+
+theorem afterOoo_of_none (f1 : Flow) (p : Pkt) (b : Bool) (h : f1.recEnd = none) : f1.afterOoo p b = f1 := by
+  unfold Flow.afterOoo; rw [h]; split <;> simp_all
+
+theorem afterOoo_false (f1 : Flow) (p : Pkt) : f1.afterOoo p false = f1 := by
+  unfold Flow.afterOoo; split <;> simp_all
+
+theorem afterOoo_fields (f1 : Flow) (p : Pkt) (b : Bool) :
+    (f1.afterOoo p b).state = f1.state ∧ (f1.afterOoo p b).v6 = f1.v6 ∧ (f1.afterOoo p b).dst = f1.dst ∧
+    (f1.afterOoo p b).dport = f1.dport ∧ (f1.afterOoo p b).ignoreData = f1.ignoreData ∧ (f1.afterOoo p b).ackTr = f1.ackTr := by
+  unfold Flow.afterOoo Flow.recover
+  split <;> exact ⟨rfl, rfl, rfl, rfl, rfl, rfl⟩
+
+theorem processPacket_some' (f : Flow) (p : Pkt) (d : Bytes) (hi : (f.pre p).ignoreData = false) (h : p.payload = some d) :
+    f.processPacket p =
+      ({ (f.pre p).afterOoo p (isOoo p d (f.pre p).tr.seq) with
+           tr := (processPayload ((f.pre p).afterOoo p (isOoo p d (f.pre p).tr.seq)).tr p.dataSeq d).1 },
+       (if seqCompare (wrap32 (p.dataSeq + d.length)) (f.pre p).tr.seq < 0 ∨ seqCompare p.dataSeq (f.pre p).tr.seq > 0
+         then some (p.dataSeq, d) else none),
+       (processPayload ((f.pre p).afterOoo p (isOoo p d (f.pre p).tr.seq)).tr p.dataSeq d).2) := by
+  have e : (if seqCompare (wrap32 (p.dataSeq + d.length)) (f.pre p).tr.seq < 0 ∨ seqCompare p.dataSeq (f.pre p).tr.seq > 0
+         then some (p.dataSeq, d) else none).isSome = isOoo p d (f.pre p).tr.seq := by
+    unfold isOoo; split <;> simp_all
+  unfold Flow.processPacket
+  simp only [h, hi, Bool.false_eq_true, if_false, e]
+
+/-- without a recovery handler the out-of-order callback leaves the flow alone -/
+theorem processPacket_some (f : Flow) (p : Pkt) (d : Bytes) (hi : (f.pre p).ignoreData = false) (hr : (f.pre p).recEnd = none)
+    (h : p.payload = some d) :
     f.processPacket p =
       ({ f.pre p with tr := (processPayload (f.pre p).tr p.dataSeq d).1 },
        (if seqCompare (wrap32 (p.dataSeq + d.length)) (f.pre p).tr.seq < 0 ∨ seqCompare p.dataSeq (f.pre p).tr.seq > 0
          then some (p.dataSeq, d) else none),
        (processPayload (f.pre p).tr p.dataSeq d).2) := by
-  unfold Flow.processPacket
-  simp only [h, hi, Bool.false_eq_true, if_false]
+  rw [processPacket_some' f p d hi h, afterOoo_of_none _ p _ hr]
+
+theorem updateState_recEnd (f : Flow) (p : Pkt) : (f.updateState p).recEnd = f.recEnd := by
+  unfold Flow.updateState
+  split
+  · rfl
+  · split
+    · rfl
+    · split
+      · rfl
+      · split <;> rfl
+
+theorem pre_recEnd (f : Flow) (p : Pkt) : (f.pre p).recEnd = f.recEnd := by
+  have : ∀ g : Flow, (g.trackAck p).recEnd = g.recEnd := by
+    intro g; unfold Flow.trackAck; split <;> rfl
+  unfold Flow.pre
+  rw [this, updateState_recEnd]
 
 end Tins.SF
